@@ -10,7 +10,8 @@ TIE = {'condorcet.Copeland/Schulze/MinimaxCondorcet/RankedPairs/KemenyYoung': 'c
        'component/pairwin_scorer.py': 'translator (Gen/Pairwin.v regenerated on every run, Props/GenTie_Pairwin.v proves it equal to the '
                                       'scorers of Model/Condorcet.v) + correspondence through minimax / ranked pairs',
        'sequential.Benham / TidemanAlternative / eliminate_one, RANKED_TO_CONDORCET, RANKED_SUBSETTER': 'correspondence (Model/Hybrids.v, '
-       'units 200-204; the model has the elimination step as written and as repaired, the harness probes which one the implementation has)'}
+       'units 200-204; the model has every repair as a flag - elimination step, single candidate / no pairwise contest, tiers after the first - '
+       'the harness probes which ones the implementation has and the declarative clauses reject the unrepaired behaviour)'}
 RULE = ('corpus; random pairwise dictionaries over 3..6 candidates (Kemeny <= 5): profile-derived (truncation, shared ranks, both '
         'unranked_at_bottom), arbitrary sparse, dense with exact ties, forced Condorcet winners, counts x 1e25; every entry of '
         'condorcet.EVALUATORS, n_seats 1..|C|. Compared with the model (exact list, ties as sets) and judged by the declarative '
@@ -20,14 +21,17 @@ RULE = ('corpus; random pairwise dictionaries over 3..6 candidates (Kemeny <= 5)
         'RankedToCondorcetVotes into every EVALUATORS entry, and Benham / TidemanAlternative on the profile itself, judged against the Condorcet winner / Smith set of an '
         'INDEPENDENT pairwise count of the profile (harness). hybrids: ranked profiles over 1..6 candidates (bullet votes, truncation, shared '
         'ranks, zero weights, weights up to 1e25, three-cycles with equal blocks so that first preferences tie) through Benham / '
-        'TidemanAlternative (n_seats 1, and 2 while the further tiers raise TypeError), RANKED_TO_CONDORCET, RANKED_SUBSETTER and '
+        'TidemanAlternative (n_seats 1 in half of the cases, otherwise 2 .. candidates + 1), RANKED_TO_CONDORCET, RANKED_SUBSETTER and '
         'eliminate_one, compared with Model/Hybrids.v (result list, tie objects as sets, error kind) and judged by the declarative clauses '
-        'on the implementation\'s answer (Condorcet winner alone; plain winner in the brute-force Smith set; no undeclared exception). '
+        'on the implementation\'s answer (Condorcet winner alone / first; plain winner in the brute-force Smith set; several seats: min(n, candidates) '
+        'distinct plain candidates, every tier winner in the brute-force Smith set of the candidates left; a single candidate elected; no undeclared exception). '
         'non-trivial = no Condorcet winner or a pairwise tie or a missing reverse pair; distinct by case hash')
 PARTIAL = ['Benham: Smith containment is a theorem for the repaired elimination step only (C05_smith_benham, fx = true); for the step as '
-           'written on the pinned tree it is refuted (C05_smith_benham_refuted, known finding C05-hybrid-elimination-tie)',
-           'hybrids: IndexError on a profile whose pairwise dictionary is empty (single candidate; known finding C05-hybrid-empty-pairwise); '
-           'the Smith theorem for Benham assumes a non-empty dictionary']
+           'written on the pinned tree it is refuted (C05_smith_benham_refuted, finding C05-hybrid-elimination-tie, fixed)',
+           'hybrids: the theorems about several seats / a single candidate are about the library with fixes/C05-tideman-tiers.diff and '
+           'fixes/C05-hybrid-single-candidate.diff (findings C08-tideman-multiseat, C05-hybrid-empty-pairwise: fixed); a profile on which nobody '
+           'stands (only empty ballots) still ends in IndexError - outside the property (n_seats <= number of candidates); the Smith theorem for '
+           'Benham assumes a non-empty dictionary (a single candidate has no Smith set in the dictionary)']
 TRUSTED = []
 METHODS = ['rankedpairs_winvotes', 'rankedpairs_margins', 'rankedpairs_pwo', 'copeland_2o', 'copeland_raw', 'schulze',
            'kemeny_young', 'minimax_winvotes', 'minimax_margins', 'minimax_pwo']
